@@ -89,7 +89,7 @@ func buildFins() []*Fin {
 		}})
 	add(&Fin{Label: `First(&M)`, Kind: "query", Builds: bFirst,
 		Run: func(db *gorm.DB, c *Ctx, v []Val) *gorm.DB { return db.First(NewPtr(c.Model)) }})
-	add(&Fin{Label: `First(&M, map{{0}:v})`, Rep: true, Kind: "query", Builds: bFirst, Slots: []SlotSpec{anySlot(0)},
+	add(&Fin{Label: `First(&M, map{{0}:v})`, Rep: true, Kind: "query", Builds: bFirst, Slots: []SlotSpec{listSlot(0)},
 		Run: func(db *gorm.DB, c *Ctx, v []Val) *gorm.DB {
 			return db.First(NewPtr(c.Model), map[string]interface{}{c.Col(0): v[0].V})
 		}})
@@ -174,13 +174,13 @@ func buildFins() []*Fin {
 	// ---- deletes
 	add(&Fin{Label: `Delete(&M{})`, Kind: "delete", Write: true, Builds: bDelete,
 		Run: func(db *gorm.DB, c *Ctx, v []Val) *gorm.DB { return db.Delete(NewPtr(c.Model)) }})
-	add(&Fin{Label: `Delete(&M{}, "{0} = ? OR {1} IN (?)", v, w)`, Rep: true, Kind: "delete", Write: true, Builds: bDelete, Slots: []SlotSpec{anySlot(0), anySlot(1)},
+	add(&Fin{Label: `Delete(&M{}, "{0} = ? OR {1} IN (?)", v, w)`, Rep: true, Kind: "delete", Write: true, Builds: bDelete, Slots: []SlotSpec{anySlot(0), listSlot(1)},
 		Run: func(db *gorm.DB, c *Ctx, v []Val) *gorm.DB {
 			return db.Delete(NewPtr(c.Model), c.tpl("{0} = ? OR {1} IN (?)"), v[0].V, v[1].V)
 		}})
 	add(&Fin{Label: `Delete(&M{ID:5})`, Kind: "delete", Write: true, Builds: bDelete,
 		Run: func(db *gorm.DB, c *Ctx, v []Val) *gorm.DB { return db.Delete(NewRec(c.Model, 5, nil)) }})
-	add(&Fin{Label: `Unscoped().Delete(&M{}, map{{0}:v})`, Kind: "delete", Write: true, Builds: bDelete, Slots: []SlotSpec{anySlot(0)},
+	add(&Fin{Label: `Unscoped().Delete(&M{}, map{{0}:v})`, Kind: "delete", Write: true, Builds: bDelete, Slots: []SlotSpec{listSlot(0)},
 		Run: func(db *gorm.DB, c *Ctx, v []Val) *gorm.DB {
 			return db.Unscoped().Delete(NewPtr(c.Model), map[string]interface{}{c.Col(0): v[0].V})
 		}})
@@ -216,7 +216,7 @@ func buildFins() []*Fin {
 		}})
 
 	// ---- raw SQL
-	add(&Fin{Label: `Raw("SELECT * FROM own WHERE {0} = ? AND {1} IN ? AND {8} IN (?)", v, w, x).Find(&[]M)`, Rep: true, Kind: "raw", Builds: bNone, Slots: []SlotSpec{anySlot(0), inSlot(1), anySlot(8)},
+	add(&Fin{Label: `Raw("SELECT * FROM own WHERE {0} = ? AND {1} IN ? AND {8} IN (?)", v, w, x).Find(&[]M)`, Rep: true, Kind: "raw", Builds: bNone, Slots: []SlotSpec{anySlot(0), inSlot(1), listSlot(8)},
 		Run: func(db *gorm.DB, c *Ctx, v []Val) *gorm.DB {
 			return db.Raw("SELECT * FROM "+TableOf[c.Model]+c.tpl(" WHERE {0} = ? AND {1} IN ? AND {8} IN (?)"), v[0].V, v[1].V, v[2].V).Find(NewSlicePtr(c.Model))
 		}})
@@ -225,7 +225,7 @@ func buildFins() []*Fin {
 			return db.Raw("SELECT * FROM "+TableOf[c.Model]+c.tpl(" WHERE {0} = @a OR ({1} = @b AND {8} <> @a2)"),
 				sql.Named("b", v[1].V), map[string]interface{}{"a": v[0].V, "a2": v[2].V}).Scan(NewSlicePtr(c.Model))
 		}})
-	add(&Fin{Label: `Exec("UPDATE own SET {0} = ? WHERE {1} IN (?) OR {8} = ?", v, w, x)`, Kind: "exec", Write: true, Builds: bNone, Slots: []SlotSpec{anySlot(0), anySlot(1), anySlot(8)},
+	add(&Fin{Label: `Exec("UPDATE own SET {0} = ? WHERE {1} IN (?) OR {8} = ?", v, w, x)`, Kind: "exec", Write: true, Builds: bNone, Slots: []SlotSpec{anySlot(0), listSlot(1), anySlot(8)},
 		Run: func(db *gorm.DB, c *Ctx, v []Val) *gorm.DB {
 			return db.Exec("UPDATE "+TableOf[c.Model]+c.tpl(" SET {0} = ? WHERE {1} IN (?) OR {8} = ?"), v[0].V, v[1].V, v[2].V)
 		}})
@@ -281,7 +281,7 @@ func buildFins() []*Fin {
 		Run: func(db *gorm.DB, c *Ctx, v []Val) *gorm.DB { return db.Save(NewRec(c.Model, 0, typedSet(c, v))) }})
 	add(&Fin{Label: `Save(&[]M{r0, r1})`, Kind: "create", Write: true, Builds: bCreate, Slots: fewSlots(2),
 		Run: func(db *gorm.DB, c *Ctx, v []Val) *gorm.DB { return db.Save(fewRecs(c, v)) }})
-	add(&Fin{Label: `FirstOrInit(&M{}, map{{0}:v})`, Kind: "query", Builds: bFirst, Slots: []SlotSpec{anySlot(0)},
+	add(&Fin{Label: `FirstOrInit(&M{}, map{{0}:v})`, Kind: "query", Builds: bFirst, Slots: []SlotSpec{listSlot(0)},
 		Run: func(db *gorm.DB, c *Ctx, v []Val) *gorm.DB {
 			return db.FirstOrInit(NewPtr(c.Model), map[string]interface{}{c.Col(0): v[0].V})
 		}})
